@@ -326,3 +326,43 @@ func ZZ_C03_I6() {
 	n.end()
 	zzverif.Reach("I6 end")
 }
+
+// ZZ_C16_F5: the minimum-fee rule also binds contract transactions, whatever
+// the relation between the governance minimum gas and the EVM's intrinsic gas
+// (round 8, seed C16-h): minTrxGas symbolic up to 2^20, a contract call with a
+// symbolic gas limit, CheckTx and DeliverTx.
+func ZZ_C16_F5() {
+	govp := ctrlertypes.Test1GovParams()
+	ctrlertypes.ZZSetMinTrxGas(govp, zzverif.NondetU64In("gov.minTrxGas", 1, 1<<20))
+	n := zzNewGenesisBanded(3, 1, govp).start()
+	n.emptyBlock(0)
+	n.emptyBlock(0)
+	gas := zzverif.NondetU64In("tx.gas", 1, 1<<21)
+	val := zzverif.NondetU256Below("tx.value", uint256.NewInt(1<<40))
+	callee := zzAddr(2)
+	deploy := zzverif.Choose("tx.deploy", 2) == 1
+	t := &zzTx{from: 1, amount: val, gas: gas, gasPrice: govp.GasPrice(), nonce: n.nonceOf(zzAddr(1)), signer: 1,
+		typ: ctrlertypes.TRX_CONTRACT, payload: &ctrlertypes.TrxPayloadContract{Data: []byte{0xA0}}}
+	var raw []byte
+	if deploy {
+		t.to, t.payload = -1, &ctrlertypes.TrxPayloadContract{Data: zzInitCode(0, nil)}
+		raw = n.encode(t)
+	} else {
+		raw = n.encodeTo(t, callee)
+	}
+	fee := new(uint256.Int).Mul(uint256.NewInt(gas), govp.GasPrice())
+	rc := n.app.CheckTx(abcitypes.RequestCheckTx{Tx: raw, Type: abcitypes.CheckTxType_New})
+	if rc.Code == 0 {
+		zzverif.Assert(!fee.Lt(govp.MinTrxFee()), "F1 contract tx admitted to the mempool only with gas x price >= minimum fee")
+		zzverif.Reach("F5 checktx admitted")
+	}
+	n.begin(0, nil, nil)
+	r := n.app.DeliverTx(abcitypes.RequestDeliverTx{Tx: raw})
+	if r.Code == 0 {
+		zzverif.Assert(!fee.Lt(govp.MinTrxFee()), "F1 contract tx executed only with gas x price >= minimum fee")
+		zzverif.Reach("F5 delivered")
+	} else {
+		zzverif.Reach("F5 rejected")
+	}
+	n.end()
+}
